@@ -173,6 +173,13 @@ func (l *lexer) emitAtLineColumn(line, column int, typ tokenTyp, length int) {
 	if length > 0 {
 		l.lastTokenType = typ
 		l.src = l.src[length:]
+		// tag.index is relative to src. If the current attribute value started
+		// in the emitted bytes, it contains template code and is not known.
+		if l.tag.index >= length {
+			l.tag.index -= length
+		} else if l.tag.attr != "" {
+			l.tag.index = -1
+		}
 	}
 }
 
@@ -444,7 +451,7 @@ func (l *lexer) scan() {
 						p = 0
 						lin = l.line
 						col = l.column
-					} else if l.tag.attr == "type" {
+					} else if l.tag.attr == "type" && l.tag.index >= 0 {
 						switch l.tag.name {
 						case "script":
 							typ := l.src[l.tag.index:p]
